@@ -1,6 +1,7 @@
 """Pipeline P shared by the EAOModel-based checks (C01, C02, C04, C05, C08, C12, C13, C14, C16, C20)."""
 import collections
 import copy
+import numpy as np
 import random
 
 from harness import pipeline as P
@@ -294,6 +295,14 @@ def zoo_portfolio_traces(chk, seeds, routes=('mono', 'split', 'io'), zoo_list=No
                         if route == 'mono':
                             op = pf.setup_optim_problem(pr, tg)
                             res = op.optimize()
+                            out = eao.io.extract_output(pf, op, res) if not isinstance(res, str) else None
+                        elif route == 'robust':
+                            # robust target over three price scenarios (the given prices, all prices halved, all prices raised by a half):
+                            # whatever the objective, the reported value is minus cost times solution and the tables add up to it
+                            op = pf.setup_optim_problem(pr, tg)
+                            cs = pf.create_cost_samples([pr, {k: np.asarray(v, float) * 0.5 for k, v in pr.items()},
+                                                         {k: np.asarray(v, float) * 1.5 for k, v in pr.items()}], tg)
+                            res = op.optimize(target='robust', samples=cs)
                             out = eao.io.extract_output(pf, op, res) if not isinstance(res, str) else None
                         elif route == 'split':
                             # an interval must hold at least one coarse step / one period of every asset
